@@ -130,9 +130,11 @@ func glyphTop(f *sfnt.Font, gid glyph.ID) funit.Int16 {
 
 // stdLigatures is the independent statement of the synthetic ligature rule:
 // for each of the five f-ligature characters that the font maps, together
-// with all of its component letters, there is a ligature rule.
-func stdLigatures(f *sfnt.Font) map[string]glyph.ID {
-	res := map[string]glyph.ID{}
+// with all of its component letters, there is a ligature rule.  When several
+// letters share a glyph, different ligatures have the same component glyphs;
+// all their outputs are acceptable for that key.
+func stdLigatures(f *sfnt.Font) map[string]map[glyph.ID]bool {
+	res := map[string]map[glyph.ID]bool{}
 	for lig, comps := range map[rune]string{0xFB00: "ff", 0xFB01: "fi", 0xFB02: "fl", 0xFB03: "ffi", 0xFB04: "ffl"} {
 		out := bestLookup(f, lig)
 		if out == 0 {
@@ -148,16 +150,20 @@ func stdLigatures(f *sfnt.Font) map[string]glyph.ID {
 			in = append(in, g)
 		}
 		if ok {
-			res[fmt.Sprint(in)] = out
+			key := fmt.Sprint(in)
+			if res[key] == nil {
+				res[key] = map[glyph.ID]bool{}
+			}
+			res[key][out] = true
 		}
 	}
 	return res
 }
 
-// ligatureSet extracts (input sequence -> output) from a GSUB table that
+// ligatureSet extracts (input sequence -> outputs) from a GSUB table that
 // consists of type 4 lookups.
-func ligatureSet(info *gtab.Info) map[string]glyph.ID {
-	res := map[string]glyph.ID{}
+func ligatureSet(info *gtab.Info) map[string]map[glyph.ID]bool {
+	res := map[string]map[glyph.ID]bool{}
 	if info == nil {
 		return res
 	}
@@ -172,13 +178,36 @@ func ligatureSet(info *gtab.Info) map[string]glyph.ID {
 					continue
 				}
 				for _, lig := range s4.Repl[idx] {
-					in := append([]glyph.ID{first}, lig.In...)
-					res[fmt.Sprint(in)] = lig.Out
+					key := fmt.Sprint(append([]glyph.ID{first}, lig.In...))
+					if res[key] == nil {
+						res[key] = map[glyph.ID]bool{}
+					}
+					res[key][lig.Out] = true
 				}
 			}
 		}
 	}
 	return res
+}
+
+// sameLigatures: same input sequences, and every output the font has for a
+// sequence is one the rule allows.
+func sameLigatures(want, got map[string]map[glyph.ID]bool) bool {
+	if len(want) != len(got) {
+		return false
+	}
+	for key, outs := range got {
+		w, ok := want[key]
+		if !ok {
+			return false
+		}
+		for o := range outs {
+			if !w[o] {
+				return false
+			}
+		}
+	}
+	return true
 }
 
 // normalForm computes N(F): what Read(Write(F)) must return.
@@ -318,7 +347,20 @@ func fixedPoint(k *mon.Case, g *sfnt.Font, label string) {
 	}
 	k.Eval()
 	if d := diffFonts(g, h); d != "" {
-		k.Fail("mismatch", "fixed-point:font-differs:"+firstDiffField(d), "Read(Write(G)) differs from G for G=%s (-G +reread):\n%s", label, d)
+		witness := "fixed-point:font-differs:" + firstDiffField(d)
+		// a narrower class: the file has OS/2 weight Bold but neither the bold
+		// flag nor a name table saying so; Write derives the subfamily "Bold"
+		// from the weight and Read derives IsBold from that subfamily
+		sub := g.Subfamily()
+		if !g.IsBold && h.IsBold && strings.Contains(sub, "Bold") && !strings.Contains(sub, "Semi Bold") && !strings.Contains(sub, "Extra Bold") {
+			h2 := *h
+			h2.IsBold = false
+			h2.IsRegular = g.IsRegular
+			if diffFonts(g, &h2) == "" {
+				witness = "fixed-point:IsBold-from-weight-via-written-subfamily"
+			}
+		}
+		k.Fail("mismatch", witness, "Read(Write(G)) differs from G for G=%s (-G +reread):\n%s", label, d)
 		return
 	}
 	b2, ok := writeFont(k, h, "Write(Read(Write("+label+")))")
@@ -354,14 +396,14 @@ func c01opts(k *mon.Case) fontgen.Opts {
 			o.MinGlyphs, o.MaxGlyphs = 900, 1100
 		}
 	}
-	if k.C.Thorough() && k.Index%500 == 11 {
+	if k.C.Thorough() && k.Index%1000 == 11 {
 		o.MinGlyphs, o.MaxGlyphs = 65535, 65535
 		if o.Kind == "cff" {
 			// glyph names are strings with 16-bit string ids (391 are predefined):
 			// a simple CFF font cannot name 65535 glyphs individually
 			o.MinGlyphs, o.MaxGlyphs = 60000, 60000
 		}
-	} else if k.C.Thorough() && k.Index%100 == 7 {
+	} else if k.C.Thorough() && k.Index%200 == 7 {
 		o.MinGlyphs, o.MaxGlyphs = 9000, 11000
 	}
 	if r.IntN(2) == 0 {
@@ -372,7 +414,7 @@ func c01opts(k *mon.Case) fontgen.Opts {
 
 func runC01(c *mon.Ctx) {
 	childOut := os.Getenv("C01_CHILD_HASH")
-	c.Stratum("constructed", c.N(500, 12000), func(k *mon.Case) {
+	c.Stratum("constructed", c.N(500, 6000), func(k *mon.Case) {
 		o := c01opts(k)
 		f, info := fontgen.Font(k.Rng, o)
 		if f.CreationTime.IsZero() && f.ModificationTime.IsZero() {
@@ -441,12 +483,12 @@ func runC01(c *mon.Ctx) {
 		want := normalForm(f)
 		if f.Gsub == nil {
 			// synthetic standard ligatures: compared semantically
-			wantLig := map[string]glyph.ID{}
+			wantLig := map[string]map[glyph.ID]bool{}
 			if !f.IsFixedPitch() {
 				wantLig = stdLigatures(f)
 			}
 			got := ligatureSet(g.Gsub)
-			if fmt.Sprint(wantLig) != fmt.Sprint(got) {
+			if !sameLigatures(wantLig, got) {
 				k.Fail("mismatch", "lossless:synthetic-ligatures", "font without GSUB: ligature rules after reading %v, expected %v (%s)", got, wantLig, desc)
 			}
 			if len(wantLig) > 0 {
@@ -470,7 +512,7 @@ func runC01(c *mon.Ctx) {
 
 	// bytes stratum: corpus files and mutants the reader accepts
 	corpus := corpusFiles(c)
-	c.Stratum("bytes", c.N(200, 6000), func(k *mon.Case) {
+	c.Stratum("bytes", c.N(200, 4000), func(k *mon.Case) {
 		r := k.Rng
 		var b []byte
 		var label string
